@@ -6,13 +6,23 @@
 # from this run.
 set -u
 cd /verif
+if [ "${1:-}" = "--par" ]; then
+  # N seeds at a time, each with --update; the summary is rebuilt once at the end
+  N=${2:-3}
+  ls -d seeded/C*/ | xargs -n1 basename | xargs -P "$N" -I{} sh -c 'RECHECK_ONE=1 tools/recheck_seeds.sh --update "{}/" > /tmp/recheck.{}.out 2>&1'
+  cat /tmp/recheck.C*.out | grep -E "^C[0-9]+-[0-9]+:" | sort -t- -k1,1 -k2,2n
+  bad=$(cat /tmp/recheck.C*.out | grep -c REGRESSION)
+  rm -f /tmp/recheck.C*.out
+  RECHECK_SUMMARY=1 tools/recheck_seeds.sh --update __none__ | tail -2
+  [ "$bad" = 0 ]; exit $?
+fi
 UPDATE=0
 if [ "${1:-}" = "--update" ]; then UPDATE=1; shift; fi
 PAT=${1:-}
 bad=0
 for d in seeded/C*/; do
   b=$(basename "$d")
-  case "$b" in *"$PAT"*) ;; *) continue;; esac
+  case "$b/" in *"$PAT"*) ;; *) continue;; esac
   r=$(tools/try_patch.sh "$d/patch.diff" 2>&1)
   fired=$(echo "$r" | grep "^== C.. fires" | sed 's/== \(C..\) fires:/\1/' | tr '\n' ' ')
   rules=$(echo "$r" | grep -oE "^  (VIOLATED|UNDECIDED) [A-Za-z0-9-]+" | awk '{print $2}' | sort -u | tr '\n' ' ')
@@ -34,7 +44,7 @@ json.dump(m,open(p,'w'),indent=1)
 PY
   fi
 done
-if [ $UPDATE = 1 ]; then
+if [ $UPDATE = 1 ] && [ -z "${RECHECK_ONE:-}" ]; then
 python3 - <<'PY'
 import json,glob,os
 rows=[]
